@@ -155,10 +155,41 @@ def r5_scope_family(ctx, res):
     r4_default_formula(ctx, res)
 
 
+IMAGES = [
+    ('Word.synsets', 'self.senses()', 'synset'),
+    ('Synset.words', 'self.senses()', 'word'),
+    ('Synset.lemmas', 'self.words()', 'lemma'),
+]
+
+
+def r6_images(ctx, res):
+    """word.synsets(), synset.words() and synset.lemmas() are the in-order images of the sense (word) lists: a plain list
+    comprehension over the list - no filter, no de-duplication, no re-ordering."""
+    for mname, src, meth in IMAGES:
+        f = ctx.repo.func('_core', mname)
+        key = f'image:{mname}'
+        rets = [n for n in walk_no_nested(f.node) if isinstance(n, ast.Return) and n.value is not None]
+        res.inst(key, f.module.loc(f.node), norm(rets[0].value) if rets else 'no return')
+        ok = False
+        if len(rets) == 1 and isinstance(rets[0].value, ast.ListComp):
+            lc = rets[0].value
+            if len(lc.generators) == 1 and not lc.generators[0].ifs and norm(lc.generators[0].iter) == src \
+                    and isinstance(lc.generators[0].target, ast.Name) and isinstance(lc.elt, ast.Call) and not lc.elt.args \
+                    and isinstance(lc.elt.func, ast.Attribute) and lc.elt.func.attr == meth \
+                    and isinstance(lc.elt.func.value, ast.Name) and lc.elt.func.value.id == lc.generators[0].target.id:
+                ok = True
+        if not ok:
+            res.find(key, f.module.loc(f.node),
+                     f'{mname} is no longer `[x.{meth}() for x in {src}]` (found `{norm(rets[0].value)[:80] if rets else None}`): the result '
+                     f'must be the image of that list in order, element by element (a de-duplicated, filtered or re-ordered list '
+                     f'disagrees with the inverse navigation when one word has two senses in a synset)')
+
+
 RULES = [
     ('C10-R1', r1_navigation, 30),
     ('C10-R2', r2_eq_hash, 12),
     ('C10-R3', r3_translate_guard, 3),
     ('C10-R4', r4_inverse_navigation, 5),
     ('C10-R5', r5_scope_family, 3),
+    ('C10-R6', r6_images, 3),
 ]
